@@ -26,13 +26,69 @@ def injection_part(ck, tier, rng):
         break
 
 
+def alert_sweep_part(ck, tier, rng):
+    """a one-shot callback inside a system simulation and an interrupt of the same / a neighbouring inner device raised at every
+    event-loop step around the instant the callback falls due -- on the recording bus, every step of the schedulers replayed in
+    the alert protocol (Oracle/AlertReplay.v): the nested scheduler must take a due wakeup out of its table when it serves it
+    (else the system simulation asks for a callback the protocol does not: 31) and leave the others alone"""
+    import cbus
+    EXT, EXP = 1, 2
+    configs = [({1: dict(order=[(3, 2)], conns=[]), 2: dict(order=[(4, "dev"), (5, "dev")], conns=[(4, 1, 5, 1)])},
+                {4: (7, 300_000_000, 2), 5: (7, 300_000_000, 0)}),
+               ({1: dict(order=[(3, "dev"), (4, 2)], conns=[(3, 1, 4, 1)]),
+                 2: dict(order=[(5, "dev"), (6, "dev")], conns=[(EXT, 1, 5, 1), (5, 1, EXP, 1)])},
+                {3: (9, 300_000_000, 1), 5: (9, 300_000_000, 0), 6: (9, 300_000_000, 2)})]
+    t_end = 700_000_003
+    cases, terms = [], []
+    for cfg, devs in configs:
+        base = slevel.run_internal(cfg, devs, (1, 1), 0, [], t_end, bus=cbus.CBus(rng, "fifo"))
+        nsteps = base["steps"] or 200
+        for d in [x for x in slevel.devices_of(cfg) if slevel.path_of(cfg, x)[1]]:
+            for k in range(1, nsteps, 1 if tier == "thorough" else 2):
+                r = slevel.run_internal(cfg, devs, (1, 1), 0, [], t_end, inject=(k, d), bus=cbus.CBus(rng, "fifo"))
+                if not r["inj"] or not r["inj"]["started"] or r["alert"] is None or r["inj"]["real"] >= t_end:
+                    continue          # (an interrupt raised at the very end of the run is cut off before its tick is over)
+                cases.append(dict(cfg=cfg, devs=devs, device=d, step=k, run=r))
+                terms.append(slevel.render_alert(cfg, 0, r["alert"]))
+    bad = run_shards(PID + "_alert", c07.ALERT_HEADER, "alert_case", "check_alert_case", terms, shard_size=40)
+    ck.coverage.update(alert_sweep_runs=len(cases), alert_sweep_disagreements=len(bad))
+    for i in sorted(bad):
+        c = cases[i]
+        code = bad[i][0]
+        ck.report("nested-callback-bookkeeping-leaves-the-alert-protocol",
+                  f"interrupt of device c{c['device']} injected at loop step {c['step']}: {c07.ALERT_REASONS.get(code, code)}",
+                  dict(kind="alert_sweep", cfg={str(k): v for k, v in c["cfg"].items()}, devs={str(k): list(v) for k, v in c["devs"].items()},
+                       device=c["device"], step=c["step"], codes=bad[i],
+                       events_around=[list(map(str, e)) for e in c["run"]["alert"][max(0, (bad[i][1] if len(bad[i]) > 1 else 0) - 12):(bad[i][1] if len(bad[i]) > 1 else 0) + 2]],
+                       broken="correspondence Model/Alert.v vs the real schedulers; C06_nested_callback_is_source"), no_input=(code != 31))
+        break
+
+
+def both_parts(ck, tier, rng):
+    injection_part(ck, tier, rng)
+    alert_sweep_part(ck, tier, rng)
+
+
 def main(tier, seed):
     return sprops.main_S(PID, tier, seed, {65, 66, 67}, "Props.C06",
-                         ["Model/Sim.v", "Model/Master.v", "Oracle/SimCheck.v", "Oracle/SimOracle.v", "Proofs/MasterP.v", "Model/PyLib.v", "Gen/SourceFuns.v", "Proofs/GenWakeupsP.v", "Proofs/GenNestedEpilogueP.v", "Props/C06.v"],
-                         "callbacks", "callbacks", extra=injection_part)
+                         ["Model/Sim.v", "Model/Master.v", "Oracle/SimCheck.v", "Oracle/SimOracle.v", "Proofs/MasterP.v", "Model/PyLib.v", "Gen/SourceFuns.v", "Proofs/GenWakeupsP.v", "Proofs/GenNestedEpilogueP.v", "Model/Alert.v", "Oracle/AlertReplay.v", "Proofs/AlertP.v", "Proofs/AlertReplayP.v", "Props/C06.v"],
+                         "callbacks", "callbacks", extra=both_parts)
 
 
 def replay(rp):
+    if rp.get("kind") == "alert_sweep":
+        import cbus
+        import random
+        cfg = {int(k): dict(order=[(c, kk) for c, kk in v["order"]], conns=[tuple(x) for x in v["conns"]]) for k, v in rp["cfg"].items()}
+        devs = {int(k): tuple(v) for k, v in rp["devs"].items()}
+        r = slevel.run_internal(cfg, devs, (1, 1), 0, [], 700_000_003, inject=(rp["step"], rp["device"]), bus=cbus.CBus(random.Random(0), "fifo"))
+        bad = run_shards("replay", c07.ALERT_HEADER, "alert_case", "check_alert_case", [slevel.render_alert(cfg, 0, r["alert"])])
+        codes = bad.get(0, [])
+        if len(codes) > 1:
+            for j, e in enumerate(r["alert"][max(0, codes[1] - 12):codes[1] + 2]):
+                print("  ", max(0, codes[1] - 12) + j, e)
+        print("interrupt of device", rp["device"], "at step", rp["step"], "codes:", codes)
+        return 1 if bad else 0
     if rp.get("kind") == "injection":
         cfg = {int(k): dict(order=[(c, kk) for c, kk in v["order"]], conns=[tuple(x) for x in v["conns"]]) for k, v in rp["cfg"].items()}
         devs = {int(k): tuple(v) for k, v in rp["devs"].items()}
